@@ -86,6 +86,7 @@ class Check:
                 dg = hashlib.sha1(json.dumps(v["key"], sort_keys=True, default=repr).encode()).hexdigest()[:12]
                 path = os.path.join(OUT, "replays", "%s-%s.json" % (self.pid, dg))
                 if path in shown: continue
+                if len(shown) >= 50: break          # (a broken tree can yield thousands of failing cases: 50 replay files are enough)
                 shown.add(path)
                 with open(path, "w") as fh: json.dump({"property": self.pid, "tier": self.tier, "seed": self.seed, **v}, fh, indent=1, default=repr)
                 if len(shown) <= 20:
